@@ -730,9 +730,11 @@ class ExponentialBinning(BinningBase):
             raise ValueError(f"Bins must be in rising order: log_width={log_width}.")
         if bin_count < 0:
             raise ValueError(f"Cannot have a negative number of bins: {bin_count}.")
-        self._log_min = log_min
-        self._log_width = log_width
-        self._bin_count = bin_count
+        # Plain numbers (numpy scalars - a range taken from float32 data, a count from an
+        # array - cannot be written to a JSON document)
+        self._log_min = float(log_min)
+        self._log_width = float(log_width)
+        self._bin_count = int(bin_count)
 
     def is_regular(self, **kwargs) -> bool:
         return False
